@@ -19,8 +19,7 @@ import (
 //     rounds ModTime and picks USTAR, else PAX, else GNU);
 //   - that walkFS assigns none of the header fields the byte model keeps at
 //     their zero value (AccessTime, ChangeTime, Xattrs);
-//   - that writeTar copies a body exactly when `f.info.Mode().IsRegular() &&
-//     f.header.Size > 0` and closes the tar writer (two zero blocks).
+//   - that writeTar closes the tar writer (two zero blocks).
 //
 // No source positions are printed: moving code must not rebuild the proofs.
 func genC06() {
@@ -44,6 +43,25 @@ func genC06() {
 	formats := map[string]int{"FormatUnknown": 0, "FormatUSTAR": 2, "FormatPAX": 4, "FormatGNU": 8}
 
 	walk := findFunc(rel, "", "walkFS")
+	// the local that holds the header: the one assigned from tar.FileInfoHeader(...)
+	hdr := ""
+	if walk != nil {
+		ast.Inspect(walk, func(n ast.Node) bool {
+			as, ok := n.(*ast.AssignStmt)
+			if !ok || hdr != "" || len(as.Rhs) != 1 || len(as.Lhs) < 1 {
+				return true
+			}
+			if c, ok := as.Rhs[0].(*ast.CallExpr); ok && exprText(c.Fun) == "tar.FileInfoHeader" {
+				if id, ok := as.Lhs[0].(*ast.Ident); ok {
+					hdr = id.Name
+				}
+			}
+			return true
+		})
+		if hdr == "" {
+			fail("%s: walkFS: no `<header>, err := tar.FileInfoHeader(...)`", rel)
+		}
+	}
 	format := 0
 	var xattrFlags []int
 	storeSeen := false
@@ -56,7 +74,7 @@ func genC06() {
 			}
 			for i, l := range as.Lhs {
 				sel, ok := l.(*ast.SelectorExpr)
-				if !ok || exprText(sel.X) != "header" {
+				if !ok || exprText(sel.X) != hdr {
 					continue
 				}
 				switch sel.Sel.Name {
@@ -91,7 +109,7 @@ func genC06() {
 					return true
 				}
 				ix, ok := as.Lhs[0].(*ast.IndexExpr)
-				if !ok || exprText(ix.X) != "header.PAXRecords" {
+				if !ok || exprText(ix.X) != hdr+".PAXRecords" {
 					return true
 				}
 				be, ok := ix.Index.(*ast.BinaryExpr)
@@ -125,7 +143,7 @@ func genC06() {
 						walkCond(x.Y)
 						return
 					}
-					if x.Op == token.EQL && exprText(x.X) == "header.Typeflag" {
+					if x.Op == token.EQL && exprText(x.X) == hdr+".Typeflag" {
 						if v, ok := typeflags[strings.TrimPrefix(exprText(x.Y), "tar.")]; ok {
 							flags = append(flags, v)
 							return
@@ -162,36 +180,25 @@ func genC06() {
 	g.def("c06_header_format", "N", fmt.Sprintf("%d%%N", format),
 		"tar.Header.Format as walkFS leaves it (0 FormatUnknown: never assigned; 2 USTAR, 4 PAX, 8 GNU)")
 
-	// 2. writeTar: body condition and Close
+	// 2. writeTar closes the tar writer it was given
 	wt := findFunc(rel, "", "writeTar")
-	closes, bodyCond := false, false
+	closes := false
 	if wt != nil {
+		tw := ""
+		for _, p := range wt.Type.Params.List {
+			if exprText(p.Type) == "*tar.Writer" && len(p.Names) == 1 {
+				tw = p.Names[0].Name
+			}
+		}
+		if tw == "" {
+			fail("%s: writeTar has no *tar.Writer parameter", rel)
+		}
 		ast.Inspect(wt, func(n ast.Node) bool {
-			switch x := n.(type) {
-			case *ast.CallExpr:
-				if exprText(x.Fun) == "tw.Close" {
-					closes = true
-				}
-			case *ast.IfStmt:
-				if be, ok := x.Cond.(*ast.BinaryExpr); ok && be.Op == token.LAND {
-					a, b := exprText(be.X), exprText(be.Y)
-					if (a == "f.info.Mode().IsRegular()" && b == "f.header.Size > 0") || (b == "f.info.Mode().IsRegular()" && a == "f.header.Size > 0") {
-						copies := false
-						ast.Inspect(x.Body, func(m ast.Node) bool {
-							if c, ok := m.(*ast.CallExpr); ok && (exprText(c.Fun) == "io.CopyBuffer" || exprText(c.Fun) == "io.Copy") && len(c.Args) >= 2 && exprText(c.Args[0]) == "tw" {
-								copies = true
-							}
-							return true
-						})
-						bodyCond = copies
-					}
-				}
+			if c, ok := n.(*ast.CallExpr); ok && exprText(c.Fun) == tw+".Close" {
+				closes = true
 			}
 			return true
 		})
-		if !bodyCond {
-			fail("%s: writeTar: no `if f.info.Mode().IsRegular() && f.header.Size > 0 { ... io.CopyBuffer(tw, ...) }`", rel)
-		}
 	}
 	g.def("c06_writer_closes", "bool", fmt.Sprintf("%v", closes), "writeTar calls tw.Close() (flush + two zero blocks)")
 	g.write()
